@@ -15,13 +15,20 @@ preserve norms — used here only through explicit hypotheses).
 Scope of the theorems (all sizes `N`, `n`, all real parameters, all targets, all lists of bases/samples):
 * the neural state enters through `psi`/`rho`/`prob`/`Z`; the facts C01/C02 prove about them
   (`prob σ = |ψ σ|²/Z`, `prob σ = Re ρ σσ / Z`, `Z = Σ|ψ|² > 0`) are explicit hypotheses where needed;
-* `C10_fid_mixed_partial`: the mixed fidelity is characterised GIVEN the external eigenvalue list.
-  NOT PROVED (full statement, kept as a comment):
-    -- theorem C10_fid_mixed (ρ̂ σ̂ PSD, trace one) (heig : eig = spectrum of σ̂ ρ̂) :
-    --   fidelityMixed eig = (Tr √(√ρ̂ σ̂ √ρ̂))²   ∧   0 ≤ fidelityMixed eig ≤ 1
-  i.e. Uhlmann's identity `Σ √eig(σρ) = tr √(√ρ σ √ρ)` and the range for general σ̂; what is missing is the
-  spectral theory of products of two PSD matrices (σρ is similar to the PSD matrix √ρ σ √ρ).
-  `np.linalg.eigvals` is in the trusted base.
+* mixed fidelity (§5): `np.linalg.eigvals` is EXTERNAL; the model `fidelityMixed` takes its result `eig` as an argument.
+  `C10_fid_mixed_partial` characterises the value given ANY list (`(Σ√|Re λ|)²`, kind, `≥ 0`). The link to the
+  Uhlmann fidelity is proved in §5b, for complex PSD matrices `σ̂` (target), `ρ̂` (model) over any finite index type,
+  under the single hypothesis that `eig` is — as a multiset, any order — the multiset of roots of the characteristic
+  polynomial of the matrix handed to `eigvals` (eigenvalues with algebraic multiplicity):
+    theorem C10_fid_mixed_uhlmann      (σ̂ ρ̂ PSD) (heig : eig = roots (charpoly (σ̂ ρ̂))) :
+        fidelityMixed eig = (tr √(√ρ̂ σ̂ √ρ̂))²                      -- in ℂ, and as (Re tr …)² in ℝ
+    theorem C10_fid_mixed_range        (σ̂ ρ̂ PSD, tr σ̂ = tr ρ̂ = 1) : tr √(√ρ̂ σ̂ √ρ̂) ∈ [0,1] ⊂ ℝ ∧ (heig → 0 ≤ fidelityMixed eig ≤ 1)
+    theorem C10_fid_mixed_self_uhlmann (ρ̂ PSD, tr ρ̂ = 1) : tr √(√ρ̂ ρ̂ √ρ̂) = 1 ∧ (heig → fidelityMixed eig = 1)
+  `√` is Mathlib's `CFC.sqrt` on matrices with the Loewner order; `C10_psd_sqrt_spec` shows it is the unique PSD square
+  root. `C10_fid_mixed_uhlmann_model` / `C10_fid_mixed_self` restate them for the matrix `fidProd` the model passes
+  to `eigvals`. Nothing of the former `C10_fid_mixed` comment remains unproved.
+  TRUSTED BASE: that `np.linalg.eigvals` returns the charpoly roots (hypothesis `heig`; the harness checks numpy's
+  output against the characteristic polynomial on every case), and floating-point rounding.
 -/
 import Mathlib.Analysis.SpecialFunctions.Log.Basic
 import Mathlib.Analysis.SpecialFunctions.Sqrt
@@ -33,6 +40,7 @@ import QV.Model.Metrics
 import QV.Model.States
 import QV.Lemmas.Metrics
 import QV.Lemmas.MetricsSpectrum
+import QV.Lemmas.Uhlmann
 import QV.Props.C01
 
 namespace QV.Props
@@ -723,16 +731,16 @@ theorem C10_known_F10_witness (ε : ℝ) (n : ℕ) (psi : (Fin n → Bool) → C
   have h1 : (bs.length != samples.length) = false := by simp [hlen]
   simp [h1, hrot]
 
-/-! ## 5. Mixed fidelity (partial) -/
+/-! ## 5. Mixed fidelity -/
 
-/-- **C10.5 (partial)** GIVEN the eigenvalue list `eig` that `np.linalg.eigvals(target·ρ/Z)` returned:
+/-- **C10.5, value for an arbitrary eigenvalue list** (the `_partial` in the name is historical — the check refers to
+it; the link to the Uhlmann fidelity is `C10_fid_mixed_uhlmann` below). GIVEN the eigenvalue list `eig` that
+`np.linalg.eigvals(target·ρ/Z)` returned, whatever it is:
 (a) the value is `(Σ_i √|Re λ_i|)²`, returned as a `numpy.float64`;
 (b) it is non-negative;
 (c) if the real parts of `eig` are, up to order, the squares `μ_i²` of non-negative reals summing to one — the case
     of the model's own state, where `target·ρ̂ = ρ̂²` and `μ` are the eigenvalues of the PSD trace-one `ρ̂` — the value
-    is `(tr ρ̂)² = 1`.
-Uhlmann's identity itself (that `(Σ√eig(σ̂ρ̂))²` is the Uhlmann fidelity for general `σ̂`) and the fact that
-`eig` is the spectrum are NOT proved. -/
+    is `(tr ρ̂)² = 1`. -/
 theorem C10_fid_mixed_partial (eig : List (C ℝ)) :
     fidelityMixedRes eig = .ok ⟨.npfloat, ((eig.map (fun l => √|l.1|)).sum) ^ 2⟩
     ∧ 0 ≤ fidelityMixed eig
@@ -754,11 +762,103 @@ theorem C10_fid_mixed_partial (eig : List (C ℝ)) :
       rw [abs_of_nonneg (by positivity), Real.sqrt_sq (hμ m hm)]
     rw [h2, List.map_id, hsum]; norm_num
 
-open scoped ComplexOrder in
-/-- **C10.5 (partial), self-fidelity through the spectral theorem.** Let the target be the model's own normalised
-density matrix `ρ̂ = ρ/Z`, positive semidefinite with trace one (C02_posSemidef, C02_trace). If the external
-eigenvalue list `eig` is the spectrum — the roots of the characteristic polynomial, with multiplicity — of the very
-matrix the model hands to `np.linalg.eigvals` (`fidProd = ρ̂·ρ̂`), then the returned fidelity is exactly 1. -/
+/-! ### 5b. The mixed fidelity IS the Uhlmann fidelity (spectral theory of a product of two PSD matrices)
+
+What is assumed about the external routine, and nothing else: the list `eig` handed to `fidelityMixed` is, as a
+multiset (any order), the multiset of roots of the characteristic polynomial of the matrix the code passes to
+`np.linalg.eigvals` — eigenvalues counted with algebraic multiplicity, which is what a correct eigenvalue routine
+returns.  `toC` reads the model's real pair as a complex number. -/
+
+section uhlmann
+open Matrix
+open scoped ComplexOrder MatrixOrder
+variable {ι : Type} [Fintype ι] [DecidableEq ι]
+
+/-- SPECIFICATION: the root Uhlmann fidelity `tr √(√ρ σ √ρ)` of two complex matrices, `√` being the positive
+semidefinite square root (Mathlib's `CFC.sqrt` in the C⋆-algebra of matrices ordered by `A ≤ B ↔ B − A` PSD; it is
+characterised by `C10_psd_sqrt_spec`).  The Uhlmann fidelity is its square. -/
+noncomputable def uhlmannTr (σ ρ : Matrix ι ι ℂ) : ℂ := (CFC.sqrt (CFC.sqrt ρ * σ * CFC.sqrt ρ)).trace
+
+/-- `CFC.sqrt ρ` is THE positive semidefinite square root of a PSD `ρ`: it is PSD, squares to `ρ`, and is the only
+such matrix. -/
+theorem C10_psd_sqrt_spec (ρ : Matrix ι ι ℂ) (hρ : ρ.PosSemidef) :
+    (CFC.sqrt ρ).PosSemidef ∧ CFC.sqrt ρ * CFC.sqrt ρ = ρ ∧
+    ∀ B : Matrix ι ι ℂ, B.PosSemidef → B * B = ρ → B = CFC.sqrt ρ :=
+  ⟨psd_sqrt_posSemidef ρ, psd_sqrt_mul_self ρ hρ, fun _ hB h => (CFC.sqrt_unique h hB.nonneg).symm⟩
+
+/-- **C10.5, Uhlmann's identity.** Let `σ` (target) and `ρ` (model, `ρ/Z`) be positive semidefinite complex matrices
+over any finite index type. If the eigenvalue list `eig` is, up to order, the multiset of roots of the characteristic
+polynomial of `σ * ρ` (with multiplicity), then the value `(Σ √|Re λ|)²` the code computes is the squared Uhlmann
+fidelity `(tr √(√ρ σ √ρ))²` — as a complex identity (so the trace is real) and in the real form `(Re tr …)²`.
+No normalisation is needed for this identity. -/
+theorem C10_fid_mixed_uhlmann (σ ρ : Matrix ι ι ℂ) (hσ : σ.PosSemidef) (hρ : ρ.PosSemidef)
+    (eig : List (C ℝ)) (heig : ((eig.map toC : List ℂ) : Multiset ℂ) = (σ * ρ).charpoly.roots) :
+    ((fidelityMixed eig : ℝ) : ℂ) = uhlmannTr σ ρ ^ 2 ∧ fidelityMixed eig = (uhlmannTr σ ρ).re ^ 2 := by
+  have hM := sandwich_posSemidef σ ρ hσ
+  have htr : uhlmannTr σ ρ = ((∑ i, √(hM.1.eigenvalues i) : ℝ) : ℂ) := trace_psd_sqrt _ hM
+  have hv := fidelityMixed_eq_sum σ ρ hσ hρ eig heig
+  constructor
+  · rw [htr, hv]; push_cast; rfl
+  · rw [htr, hv, Complex.ofReal_re]
+
+/-- **C10.5, range.** For PSD `σ`, `ρ` of trace one the root fidelity `tr √(√ρ σ √ρ)` is a real number in `[0,1]`
+(`tr √(√ρ σ √ρ) = ‖√σ √ρ‖₁ ≤ (tr σ + tr ρ)/2`), hence the value the code returns from the spectrum of `σ * ρ` lies in
+`[0,1]`. -/
+theorem C10_fid_mixed_range (σ ρ : Matrix ι ι ℂ) (hσ : σ.PosSemidef) (hρ : ρ.PosSemidef)
+    (hσ1 : σ.trace = 1) (hρ1 : ρ.trace = 1) :
+    ((uhlmannTr σ ρ).im = 0 ∧ 0 ≤ (uhlmannTr σ ρ).re ∧ (uhlmannTr σ ρ).re ≤ 1) ∧
+    ∀ eig : List (C ℝ), ((eig.map toC : List ℂ) : Multiset ℂ) = (σ * ρ).charpoly.roots →
+      0 ≤ fidelityMixed eig ∧ fidelityMixed eig ≤ 1 := by
+  have hM := sandwich_posSemidef σ ρ hσ
+  have htr : uhlmannTr σ ρ = ((∑ i, √(hM.1.eigenvalues i) : ℝ) : ℂ) := trace_psd_sqrt _ hM
+  have h0 : 0 ≤ ∑ i, √(hM.1.eigenvalues i) := Finset.sum_nonneg (fun i _ => Real.sqrt_nonneg _)
+  have h1 : ∑ i, √(hM.1.eigenvalues i) ≤ 1 := by
+    have h := sum_sqrt_eigenvalues_le σ ρ hσ hρ
+    rw [hσ1, hρ1, Complex.one_re] at h
+    linarith
+  refine ⟨⟨?_, ?_, ?_⟩, fun eig heig => ?_⟩
+  · rw [htr, Complex.ofReal_im]
+  · rwa [htr, Complex.ofReal_re]
+  · rwa [htr, Complex.ofReal_re]
+  · rw [fidelityMixed_eq_sum σ ρ hσ hρ eig heig]
+    exact ⟨by positivity, pow_le_one₀ h0 h1⟩
+
+/-- **C10.5, own state.** For a PSD `ρ` of trace one, `√ρ ρ √ρ = ρ²`, `√(ρ²) = ρ`, so the root fidelity of `ρ` with
+itself is `tr ρ = 1`, and the value the code returns from the spectrum of `ρ * ρ` is exactly 1. -/
+theorem C10_fid_mixed_self_uhlmann (ρ : Matrix ι ι ℂ) (hρ : ρ.PosSemidef) (hρ1 : ρ.trace = 1) :
+    uhlmannTr ρ ρ = 1 ∧
+    ∀ eig : List (C ℝ), ((eig.map toC : List ℂ) : Multiset ℂ) = (ρ * ρ).charpoly.roots → fidelityMixed eig = 1 := by
+  have hsq : CFC.sqrt ρ * ρ * CFC.sqrt ρ = ρ * ρ := by
+    calc CFC.sqrt ρ * ρ * CFC.sqrt ρ
+        = CFC.sqrt ρ * (CFC.sqrt ρ * CFC.sqrt ρ) * CFC.sqrt ρ := by rw [psd_sqrt_mul_self ρ hρ]
+      _ = (CFC.sqrt ρ * CFC.sqrt ρ) * (CFC.sqrt ρ * CFC.sqrt ρ) := by simp only [Matrix.mul_assoc]
+      _ = ρ * ρ := by rw [psd_sqrt_mul_self ρ hρ]
+  have h1 : uhlmannTr ρ ρ = 1 := by
+    rw [uhlmannTr, hsq, CFC.sqrt_mul_self ρ hρ.nonneg, hρ1]
+  refine ⟨h1, fun eig heig => ?_⟩
+  rw [(C10_fid_mixed_uhlmann ρ ρ hρ hρ eig heig).2, h1]; norm_num
+
+/-- **C10.5 on the model's own matrices.** `σ̂ = matC N T` is the target, `ρ̂ = matC N (ρ/Z)` the normalised model
+state (PSD by C02_posSemidef), and `eig` is the spectrum of the very matrix the model hands to `np.linalg.eigvals`
+(`fidProd = σ̂·ρ̂`): the returned value is the squared Uhlmann fidelity of `σ̂` and `ρ̂`, and lies in `[0,1]` when both
+have trace one (C02_trace for `ρ̂`). -/
+theorem C10_fid_mixed_uhlmann_model (N : ℕ) (T rho : ℕ → ℕ → C ℝ) (Z : ℝ)
+    (hT : (matC N T).PosSemidef)
+    (hpsd : (matC N (fun i j => ((rho i j).1 / Z, (rho i j).2 / Z))).PosSemidef)
+    (eig : List (C ℝ))
+    (heig : ((eig.map toC : List ℂ) : Multiset ℂ) = (matC N (fidProd N T rho Z)).charpoly.roots) :
+    fidelityMixed eig = (uhlmannTr (matC N T) (matC N (fun i j => ((rho i j).1 / Z, (rho i j).2 / Z)))).re ^ 2
+    ∧ ((matC N T).trace = 1 → (matC N (fun i j => ((rho i j).1 / Z, (rho i j).2 / Z))).trace = 1 →
+        0 ≤ fidelityMixed eig ∧ fidelityMixed eig ≤ 1) := by
+  rw [matC_fidProd] at heig
+  exact ⟨(C10_fid_mixed_uhlmann _ _ hT hpsd eig heig).2,
+    fun h1 h2 => (C10_fid_mixed_range _ _ hT hpsd h1 h2).2 eig heig⟩
+
+/-- **C10.5, self-fidelity on the model's own matrices** (the instance `σ̂ = ρ̂` of `C10_fid_mixed_self_uhlmann`). Let
+the target be the model's own normalised density matrix `ρ̂ = ρ/Z`, positive semidefinite with trace one
+(C02_posSemidef, C02_trace). If the external eigenvalue list `eig` is the spectrum — the roots of the characteristic
+polynomial, with multiplicity — of the very matrix the model hands to `np.linalg.eigvals` (`fidProd = ρ̂·ρ̂`), then the
+returned fidelity is exactly 1. -/
 theorem C10_fid_mixed_self (N : ℕ) (rho : ℕ → ℕ → C ℝ) (Z : ℝ)
     (hpsd : (matC N (fun i j => ((rho i j).1 / Z, (rho i j).2 / Z))).PosSemidef)
     (htr : (matC N (fun i j => ((rho i j).1 / Z, (rho i j).2 / Z))).trace = 1)
@@ -767,7 +867,25 @@ theorem C10_fid_mixed_self (N : ℕ) (rho : ℕ → ℕ → C ℝ) (Z : ℝ)
       = (matC N (fidProd N (fun i j => ((rho i j).1 / Z, (rho i j).2 / Z)) rho Z)).charpoly.roots) :
     fidelityMixed eig = 1 := by
   rw [matC_fidProd] at heig
-  exact fidelityMixed_self _ hpsd htr eig heig
+  exact (C10_fid_mixed_self_uhlmann _ hpsd htr).2 eig heig
+
+/-- non-vacuity of `C10_fid_mixed_uhlmann` / `C10_fid_mixed_range` on a non-trivial pair: the pure state `|0⟩⟨0|` against
+the maximally mixed qubit state `𝟙/2`; `σρ = diag(1/2, 0)`, and the Uhlmann fidelity is `1/2`. -/
+example : fidelityMixed ([(1 / 2, 0), (0, 0)] : List (C ℝ))
+      = (uhlmannTr (diagonal ![1, 0] : Matrix (Fin 2) (Fin 2) ℂ) (diagonal ![1 / 2, 1 / 2])).re ^ 2
+    ∧ fidelityMixed ([(1 / 2, 0), (0, 0)] : List (C ℝ)) = 1 / 2 := by
+  refine ⟨(C10_fid_mixed_uhlmann _ _ ?_ ?_ _ ?_).2, ?_⟩
+  · refine PosSemidef.diagonal (fun i => ?_); fin_cases i <;> simp
+  · refine PosSemidef.diagonal (fun i => ?_); fin_cases i <;> simp
+  · rw [diagonal_mul_diagonal, roots_charpoly_diagonal]
+    simp only [toC, Fin.univ_val_map, List.map_cons, List.map_nil, List.ofFn_succ, List.ofFn_zero, Multiset.coe_eq_coe]
+    refine List.Perm.of_eq ?_
+    simp [Complex.ext_iff]
+  · have h : (0 : ℝ) ≤ 1 / 2 := by norm_num
+    simp only [fidelityMixed, sumList_eq, transc_sqrt, transc_abs, List.map_cons, List.map_nil, List.sum_cons,
+      List.sum_nil, abs_zero, Real.sqrt_zero, add_zero, abs_of_nonneg h, Real.mul_self_sqrt h]
+
+end uhlmann
 
 /-- non-vacuity of (c): eigenvalues `{1/4, 1/4}` are the squares of `{1/2, 1/2}` -/
 example : fidelityMixed ([(1 / 4, 0), (1 / 4, 0)] : List (C ℝ)) = 1 :=
